@@ -199,6 +199,22 @@ fn families(ctx: &Ctx, rate: u32, window: u32, extreme: bool) -> Vec<Family> {
         secs((1 << 32) + 1),
         secs(1 << 40),
     ]);
+    // Long idle periods with a sub-second part, followed by requests placed
+    // exactly on / one nanosecond off the refill boundaries they imply: the
+    // refill phase must be kept to the nanosecond however long the idle time
+    // (2 and 3 years, 10^9 s; complementary fractions .3/.7, .999999999/.5).
+    let long_phase = dedup(vec![
+        Op::Req,
+        Op::Fill,
+        nanos(94_608_000, 300_000_000),
+        nanos(63_072_000, 700_000_000),
+        nanos(1_000_000_000, 999_999_999),
+        nanos(0, 700_000_000),
+        nanos(0, 300_000_000),
+        nanos(0, 299_999_999),
+        nanos(0, 500_000_000),
+        nanos(0, 1),
+    ]);
     let evict = dedup(vec![Op::Req, Op::Fill, Op::Other, nanos(0, 400_000_000), secs(1), secs(w)]);
     let dflt = dedup(vec![Op::Req, Op::Fill, secs(1), secs(w), secs(1 << 32)]);
     if extreme {
@@ -213,6 +229,7 @@ fn families(ctx: &Ctx, rate: u32, window: u32, extreme: bool) -> Vec<Family> {
     vec![
         Family { name: "phase", alphabet: phase, depth: if small { ctx.pick(6, 7) } else { ctx.pick(5, 6) }, size: Some(1) },
         Family { name: "idle", alphabet: idle, depth: ctx.pick(4, 5), size: Some(1) },
+        Family { name: "long-idle-phase", alphabet: long_phase, depth: ctx.pick(5, 6), size: Some(1) },
         Family { name: "evict", alphabet: evict, depth: ctx.pick(5, 6), size: Some(1) },
         Family { name: "default-size", alphabet: dflt, depth: ctx.pick(3, 4), size: None },
     ]
